@@ -342,7 +342,10 @@ func runC07(c *ctx) {
 			prog = "$" + []string{"sort", "reverse", "shuffle", "distinct", "merge", "spread", "keys", "sort", "max", "sum"}[r.intn(10)] + "(" + []string{"items", "items.k", "items.s", "$", "[items, items]", "b", "nums", "strs", "nums", "strs"}[r.intn(10)] + ")"
 			if r.chance(1, 2) {
 				prog = []string{"$append(items, items)", "$zip(items, items.k)", "items^(>k, s)", "items^(id){s: $}", "items{$string(k): $}", "$sort(items, function($x, $y){$x.k > $y.k})", "$map(items, function($v){$v ~> |$|{\"q\": 1}|})",
-					"nums^($)", "nums^(>$)", "strs^($)", "$append(nums, 1)", "$zip(nums, strs)", "$sort(nums, function($x, $y){$x > $y})", "$reverse($sort(nums))", "$distinct($append(nums, nums))"}[r.intn(15)]
+					"nums^($)", "nums^(>$)", "strs^($)", "$append(nums, 1)", "$zip(nums, strs)", "$sort(nums, function($x, $y){$x > $y})", "$reverse($sort(nums))", "$distinct($append(nums, nums))",
+					// two and three predicates on one step over an array of the document (first keeps all or a prefix, a later one drops from the middle)
+					"nums[$ < 9][$ > -1]", "nums[$ < 4][$ > 0]", "nums[$ != 99][$ > 1][$ < 5]", "items[id < 3][k > 0]", "items[id >= 0][k = 1].id", "strs[$ != \"zz\"][$ > \"c\"]", "$.nums[$ < 6][$ > 2]", "$$.items[id < 2][id > 0]",
+					"items[id < 3][k > 0][0]", "nums[$ < 9][[0, 2]]", "items[true][k > 0]", "dup[id < 3][k > 0]", "$ ~> |$|{\"z\": nums[$ < 4][$ > 0]}|", "$map(nums, function($v){nums[$ <= $v][$ > 0]})"}[r.intn(29)]
 			}
 		} else {
 			prog = g.expr(2 + r.intn(2))
@@ -468,6 +471,22 @@ func runTotality(c *ctx, prop string) {
 		one(p, typedSeed, "seed-typed")
 		one(p, seedDoc, "seed")
 		one(p, []interface{}{map[string]interface{}{"a": 2.0}, map[string]interface{}{"a": 1.0}}, "seed")
+	}
+	// built-ins that walk their argument, applied to arrays nested in arrays (results must stay JSON values: no
+	// evaluator-internal sequence may escape through a recursive helper)
+	nestDoc := map[string]interface{}{
+		"nest":  []interface{}{[]interface{}{map[string]interface{}{"b": 1.0}}, []interface{}{map[string]interface{}{"b": 2.0}}},
+		"nest3": []interface{}{[]interface{}{[]interface{}{map[string]interface{}{"b": 1.0, "c": []interface{}{1.0, 2.0}}}}},
+		"mixed": []interface{}{map[string]interface{}{"b": []interface{}{1.0, 2.0}}, []interface{}{map[string]interface{}{"b": 3.0}}, []interface{}{}, []interface{}{[]interface{}{}}},
+		"objs":  []interface{}{map[string]interface{}{"b": 1.0}, map[string]interface{}{"b": []interface{}{2.0, 3.0}}, map[string]interface{}{"c": 4.0}},
+	}
+	for _, arg := range []string{"nest", "nest3", "mixed", "objs", "[nest]", "[nest, mixed]", "nest[0]", "mixed[1]", "$"} {
+		for _, tmpl := range []string{"$lookup(%s, \"b\")", "$lookup(%s, \"b\")[0]", "$lookup(%s, \"c\")", "$count($lookup(%s, \"b\"))", "$keys(%s)", "$spread(%s)", "$merge(%s)", "%s.b", "%s.b[0]", "%s.**.b",
+			"$each(%s, function($v, $k){$k})", "$sift(%s, function($v){true})", "$sort(%s.b)", "$reverse(%s)", "$distinct(%s)", "$string(%s)", "$count(%s)", "$append(%s, %s)", "$zip(%s, %s)",
+			"$map(%s, function($v){$lookup($v, \"b\")})", "$lookup(%s, \"b\") ~> $sum()", "{\"r\": $lookup(%s, \"b\")}", "[$lookup(%s, \"b\")]", "$type($lookup(%s, \"b\"))", "$exists($lookup(%s, \"zz\"))"} {
+			prog := strings.ReplaceAll(tmpl, "%s", arg)
+			one(prog, nestDoc, "nested-arrays")
+		}
 	}
 	n := c.scale(12000, 250000)
 	for i := 0; i < n && !c.tooMany() && timeouts < 3; i++ {
